@@ -1041,7 +1041,10 @@ impl<Backing : AsRef<[u32]> + AsMut<[u32]>> DrawTarget<Backing> {
         rect = rect
             .intersection_unchecked(&clip_bounds)
             .intersection_unchecked(&dest_bounds)
-            .intersection_unchecked(&mask_rect);
+            .intersection_unchecked(&mask_rect)
+            // a layer's extent is the clip rect it was pushed under, which may reach beyond
+            // the surface, while clip masks and the shader scratch row are surface sized
+            .intersection_unchecked(&intrect(0, 0, self.width, self.height));
         if rect.is_empty() {
             #[cfg(feature = "verif")]
             crate::verif::probe(crate::verif::ProbeSite::CompositeEmptyRect);
